@@ -15,7 +15,9 @@ class CallGraph:
         self.direct = {}       # fn key -> set(callee names)
         self.indirect = {}     # fn key -> set((rec, field)) slot calls
         self.fieldw = {}       # fn key -> set((rec, field)) direct writes
+        self.copies = set()    # (dst fk, src fk) function-pointer field copies
         self._collect()
+        self._propagate_slots()
         self._closure()
 
     # ------------------------------------------------------------------
@@ -88,6 +90,10 @@ class CallGraph:
                             if fr:
                                 self.slots.setdefault(fk, set()).add(fr)
                                 self.slots.setdefault(("*", fk[1]), set()).add(fr)
+                            else:
+                                sk = ex.field_key(x["r"])
+                                if sk:
+                                    self.copies.add((fk, sk))
                         else:
                             l = ex.strip(x["l"])
                             if l is not None and l.get("k") == "idx":
@@ -103,6 +109,19 @@ class CallGraph:
             self.direct[f.key] = d
             self.indirect[f.key] = ind
             self.fieldw[f.key] = fw
+
+    def _propagate_slots(self):
+        changed = True
+        while changed:
+            changed = False
+            for (dst, src) in self.copies:
+                s = self.slots.get(src)
+                if not s:
+                    continue
+                d = self.slots.setdefault(dst, set())
+                if not s <= d:
+                    d |= s
+                    changed = True
 
     def slot_targets(self, fk):
         """Functions that may be called through slot fk=(rec, field)."""
@@ -151,6 +170,28 @@ class CallGraph:
 
     def may_write(self, fname):
         return self.trans_fw.get(fname, set())
+
+    def may_write_direct(self, fname):
+        """Fields written by fname or by functions it reaches through *direct* calls only.
+        (A call through a coder slot operates on a child coder object, never on the
+        caller's own record: coder objects form an ownership tree.)"""
+        if not hasattr(self, "_dfw"):
+            self._dfw = {}
+        if fname in self._dfw:
+            return self._dfw[fname]
+        seen = set()
+        out = set()
+        st = [fname]
+        while st:
+            n = st.pop()
+            if n in seen:
+                continue
+            seen.add(n)
+            out |= self.name_fw.get(n, set())
+            for f in self.by_name.get(n, []):
+                st.extend(self.direct.get(f.key, ()))
+        self._dfw[fname] = out
+        return out
 
     def reach(self, roots):
         seen = set()
